@@ -13,6 +13,7 @@ R08.3 status ladder = R06.5 (re-evaluated here)   R08.4 the LP cache is the only
 from __future__ import annotations
 
 import ast
+import re
 
 from ..astutil import dotted, src, walk_local, local_assignments, calls, dominating_guards, op_test, reaching_value
 from ..logic import formula, And, Or, Not, atom, TRUE, counterexample
@@ -322,12 +323,30 @@ def _wiring(prog, rep, fi, call):
         if src(resolved(v)) == f"{lp}.{field}":
             v = resolved(v)
         ok = src(v) == f"{lp}.{field}"
+        if not ok:
+            # a copy / array view of the field is the field; anything that is not recognisably a field of the record
+            # is not decided (only `some other field of the same record` is positively wrong)
+            core = resolved(v)
+            for _ in range(3):
+                if isinstance(core, ast.Call) and isinstance(core.func, ast.Attribute) and core.func.attr in ("copy", "astype", "tocsr", "toarray") and not core.args[1:]:
+                    core = resolved(core.func.value)
+                elif isinstance(core, ast.Call) and (dotted(core.func) or "") in ("np.asarray", "np.array", "np.ascontiguousarray", "np.copy", "list") and core.args:
+                    core = resolved(core.args[0])
+            if src(core) == f"{lp}.{field}":
+                ok = True
+                v = core
+            elif not (isinstance(core, ast.Attribute) and src(core.value) == lp) and not (field == "bounds" and isinstance(v, ast.Name)):
+                rep.undecided(f"{fi.name}:linprog({field}=): fed from `{src(v)[:50]}`, which is not recognisably a field of {lp}")
+                continue
         if not ok and field == "bounds" and isinstance(v, ast.Name):
             # bounds are mutable user state and may be read per solve: extract_bounds(<problem.variables>)
             for val in assigns.get(v.id, []):
                 if isinstance(val, ast.Call) and src(val.func).endswith("extract_bounds") and val.args and isinstance(val.args[0], ast.Name):
                     if any(isinstance(x, ast.AST) and src(x).endswith(".variables") for x in assigns.get(val.args[0].id, [])):
                         ok = True
+            if not ok and not (isinstance(resolved(v), ast.Attribute) and src(resolved(v).value) == lp):
+                rep.undecided(f"{fi.name}:linprog(bounds=): fed from `{src(v)[:50]}`; neither {lp}.bounds nor extract_bounds(problem.variables)")
+                continue
         rep.ob("R08.2", f"{fi.name}:linprog({field}=)", ok, (f"{field} = {lp}.{field}" if src(v) == f"{lp}.{field}" else f"{field} = extract_bounds(problem.variables), read on every solve in column order") if ok else f"{field} is fed from {src(v)} instead of {lp}.{field}", loc=f"{fi.module.rel}:{getattr(v, 'lineno', call.lineno)}", detail="fed-from-same-field")
     for a, b in (("A_ub", "b_ub"), ("A_eq", "b_eq")):
         if a in kws and b in kws:
@@ -341,14 +360,28 @@ def _wiring(prog, rep, fi, call):
     if "c" not in kws:
         raise AnalysisError(f"{fi.name}: linprog cost vector not found")
     cv = kws["c"][1]
-    feed = [x for x in assigns.get(cv.id, []) if isinstance(x, ast.AST)] if isinstance(cv, ast.Name) else [cv]
-    srcs = [src(x) for x in feed]
-    # every expression feeding the cost vector is built from lp.c (and lp.sense for the sign) only
-    def only_c(e):
-        attrs = {n.attr for n in ast.walk(e) if isinstance(n, ast.Attribute) and isinstance(n.value, ast.Name) and n.value.id == lp}
-        names = {n.id for n in ast.walk(e) if isinstance(n, ast.Name)} - {lp, cv.id if isinstance(cv, ast.Name) else lp}
-        return attrs <= {"c", "sense"} and not names and not any(isinstance(n, (ast.Call, ast.BinOp, ast.Subscript)) for n in ast.walk(e))
-    ok = any("c" in {n.attr for n in ast.walk(e) if isinstance(n, ast.Attribute) and isinstance(n.value, ast.Name) and n.value.id == lp} for e in feed) and all(only_c(e) for e in feed)
-    rep.ob("R08.2", f"{fi.name}:linprog(c=)", ok, f"c originates from {lp}.c" if ok else f"the cost vector originates from {srcs}, not from {lp}.c", loc=f"{fi.module.rel}:{call.lineno}", detail="fed-from-same-field")
+    # what the backend receives as cost vector, as a term in the atom BASE = <lp>.c, per world (C07's evaluation):
+    # it must be +-BASE -- any copy / negation / in-place scaling of that field, nothing else mixed in
+    from .c07 import _world_value
+    from .. import algebra as al_
+    vals = {}
+    for world in ("max", "min"):
+        try:
+            vals[world] = _world_value(prog, fi, cv, world, "c")
+        except AnalysisError:
+            vals[world] = None
+    if any(v is None for v in vals.values()):
+        rep.undecided(f"{fi.name}:linprog(c=): what the cost vector is computed from is not interpretable (`{src(cv)[:40]}`)")
+        return
+    BASE = al_.A("BASE")
+    ok = all(v.eq(BASE) or v.eq(al_.C(-1) * BASE) for v in vals.values())
+    has_base = all("BASE" in v.key() for v in vals.values())
+    if not ok and has_base and not all(set(re.findall(r"[A-Za-z_][A-Za-z_0-9.]*", v.key())) <= {"BASE"} for v in vals.values()):
+        # BASE combined with something this rule cannot name: leave it to the reader of the undecided message
+        rep.undecided(f"{fi.name}:linprog(c=): the cost vector is {vals['min'].key().replace('BASE', lp + '.c')}, not a plain copy of {lp}.c")
+        return
+    rep.ob("R08.2", f"{fi.name}:linprog(c=)", ok, f"c originates from {lp}.c (up to the sign for maximise)" if ok else
+           f"the cost vector handed to linprog is {vals['min'].key().replace('BASE', lp + '.c')} (minimise) / {vals['max'].key().replace('BASE', lp + '.c')} (maximise), not {lp}.c",
+           loc=f"{fi.module.rel}:{call.lineno}", detail="fed-from-same-field", robust=True)
     m = kws.get("method")
     rep.ob("R08.2", f"{fi.name}:linprog(method=)", m is not None and src(m[1]) == "method", "the requested method is handed to linprog" if m is not None and src(m[1]) == "method" else "the method argument is not handed to linprog", loc=f"{fi.module.rel}:{call.lineno}", detail="method")
